@@ -388,6 +388,76 @@ func vc04FromRef(p *mldsa.Poly) (o common.Poly) {
 
 // ---------------------------------------------------------------- samplers
 
+// TestVerifC04SamplerBoundary drives ExpandA's rejection sampler with inputs
+// whose SHAKE128 stream contains the boundary candidates: a 23-bit value equal
+// to q (must be rejected) or to q-1 (must be kept).  Such a candidate occurs
+// in about 3 of 100 000 polynomials, so for one seed all 65 536 nonces are
+// scanned with the reference sampler and the portable and the four-way
+// sampler are then run on exactly the nonces that hit a boundary (plus the
+// ones with the most rejections).
+func TestVerifC04SamplerBoundary(t *testing.T) {
+	lib.Mandatory("sampler:boundary-candidate-eq-q", "sampler:boundary-candidate-eq-q-1")
+	rounds := lib.Scale(1, 6)
+	for round := 0; round < rounds; round++ {
+		r := lib.NewRng("c04/wb/sampler-boundary", round) // same seeds for all parameter sets
+		var s32 [32]byte
+		r.Read(s32[:])
+		type hit struct {
+			nonce    uint16
+			q, qm1   bool
+			rejected int
+		}
+		hits := make([][]hit, 16)
+		lib.Par(16, func(w int) {
+			for n := w; n < 65536; n += 16 {
+				_, q, qm1, rej := mldsa.RejNTTPolyBoundary(append(lib.Clone(s32[:]), byte(n), byte(n>>8)))
+				if q || qm1 || rej >= 8 {
+					hits[w] = append(hits[w], hit{uint16(n), q, qm1, rej})
+				}
+			}
+		})
+		var all []hit
+		for _, h := range hits {
+			all = append(all, h...)
+		}
+		for i, h := range all {
+			lib.Case([]byte("sampler-boundary"), []byte(Name), s32[:], []byte{byte(h.nonce), byte(h.nonce >> 8)})
+			if h.q {
+				lib.Count("sampler:boundary-candidate-eq-q")
+			}
+			if h.qm1 {
+				lib.Count("sampler:boundary-candidate-eq-q-1")
+			}
+			if h.rejected >= 8 {
+				lib.Count("sampler:many-rejections")
+			}
+			want := mldsa.RejNTTPoly(append(lib.Clone(s32[:]), byte(h.nonce), byte(h.nonce>>8)))
+			var a common.Poly
+			PolyDeriveUniform(&a, &s32, h.nonce)
+			if a != vc04FromRef(&want) {
+				vc04Viol("sampler-mismatch", "PolyDeriveUniform", "seed", s32[:], "nonce", h.nonce, "candidate_eq_q", h.q, "candidate_eq_q_minus_1", h.qm1)
+			}
+			if DeriveX4Available {
+				var ps [4]*common.Poly
+				var store [4]common.Poly
+				var nonces [4]uint16
+				for j := 0; j < 4; j++ {
+					nonces[j] = all[(i+j*7)%len(all)].nonce
+					ps[j] = &store[j]
+				}
+				nonces[i%4] = h.nonce
+				PolyDeriveUniformX4(ps, &s32, nonces)
+				for j := 0; j < 4; j++ {
+					w := mldsa.RejNTTPoly(append(lib.Clone(s32[:]), byte(nonces[j]), byte(nonces[j]>>8)))
+					if store[j] != vc04FromRef(&w) {
+						vc04Viol("sampler-mismatch", "PolyDeriveUniformX4", "seed", s32[:], "nonces", fmt.Sprint(nonces), "lane", j, "boundary", true)
+					}
+				}
+			}
+		}
+	}
+}
+
 func TestVerifC04Samplers(t *testing.T) {
 	p := vc04P(t)
 	lib.Mandatory("sampler:cases")
